@@ -36,7 +36,17 @@ class Program:
             known = {l.strip() for l in open(os.path.join(os.path.dirname(os.path.abspath(__file__)), "known_fns.txt")) if l.strip() and not l.startswith("#")}
         except OSError:
             return
-        helpers = {p for p in self.fns if p not in known and is_private_helper(self, p)}
+        # (a new helper called from several places is spliced into each of them; mutual recursion among new helpers is left alone)
+        helpers = {p for p in self.fns if p not in known and is_private_helper(self, p, single=False)}
+        sites_, _ = _call_sites(self)
+        def direct(h):
+            out = set()
+            for b in self.fns[h].blocks:
+                t = b["term"]
+                if t["k"] in ("call", "tailcall"):
+                    out |= callee_names(t["f"]) & helpers
+            return out
+        helpers = {h for h in helpers if not any(h in callee_reach(self, g, helpers) for g in direct(h))}
         if not helpers:
             return
         new = {}
@@ -45,8 +55,7 @@ class Program:
                 continue
             new[p] = inlined(self, f, only=helpers)
         for h in helpers:
-            owner = helper_owner(self, h)
-            self.inlined_helpers[h] = owner
+            self.inlined_helpers[h] = sorted({c[0] for c in sites_.get(h, [])})
         self.fns = new
         self._sites = None
 
@@ -109,7 +118,7 @@ def _call_sites(prog):
     return sites, as_value
 
 
-def is_private_helper(prog, path):
+def is_private_helper(prog, path, single=True):
     """a crate function that is not part of any API surface and is called from exactly one place: extracting it from, or inlining
     it into, its caller does not change behaviour, so rules look through it"""
     f = prog.fns.get(path)
@@ -122,7 +131,9 @@ def is_private_helper(prog, path):
     if path in as_value:
         return False
     cs = sites.get(path, [])
-    return len(cs) == 1 and cs[0][0] != path
+    if single:
+        return len(cs) == 1 and cs[0][0] != path
+    return len(cs) >= 1 and all(c[0] != path for c in cs)
 
 
 def helper_owner(prog, path):
@@ -133,6 +144,23 @@ def helper_owner(prog, path):
         seen.add(path)
         path = sites[path][0][0]
     return path
+
+
+def callee_reach(prog, path, within):
+    """functions of `within` reachable from `path` through direct calls (used to keep recursive helper groups out of inlining)"""
+    seen, st = set(), [path]
+    while st:
+        p = st.pop()
+        if p in seen or p not in prog.fns:
+            continue
+        seen.add(p)
+        for b in prog.fns[p].blocks:
+            t = b["term"]
+            if t["k"] in ("call", "tailcall"):
+                for nm in callee_names(t["f"]):
+                    if nm in within:
+                        st.append(nm)
+    return seen
 
 
 def _remap_places(x, lmap, bmap):
@@ -830,6 +858,13 @@ def mkphi(ts):
     return ("phi", frozenset(flat))
 
 
+def peel(t):
+    """strip every outer &, * and reborrow layer: &*(&x) -> x"""
+    while t and t[0] in ("ref", "deref", "copy", "move") and len(t) >= 2 and isinstance(t[1], tuple):
+        t = t[1]
+    return t
+
+
 def alts(t):
     """the alternatives of a term (singleton unless phi)"""
     if t[0] == "phi":
@@ -1049,7 +1084,7 @@ class Explore:
     tries:   "both" | "ok" | "err-only-at:<bb>" — which edges of `?` to follow
     """
 
-    def __init__(self, fn, assume=None, tracked=(), tries="both", start=0, init=None, stop=(), removed_edges=()):
+    def __init__(self, fn, assume=None, tracked=(), tries="both", start=0, init=None, stop=(), removed_edges=(), assume_fn=None):
         self.fn = fn
         self.terms = Terms(fn)
         self.assume = dict(assume or {})
@@ -1057,10 +1092,12 @@ class Explore:
         # (drop flags, the result temporaries of `matches!`, `&&`, `||`): their switches are then decided exactly
         auto = []
         for l, decl in enumerate(fn.locals):
-            if l <= fn.arg_count or decl.get("name") or decl["ty"] != "bool" or l in tracked:
+            if l <= fn.arg_count or decl["ty"] != "bool" or l in tracked:
                 continue
             d = fn.defs().get(l, [])
-            if d and all(r["k"] == "use" and r["op"]["k"] == "const" and "int" in r["op"] for (_, _, r) in d):
+            # unnamed temporaries only ever assigned constants; and every bool (named or not: `let all_closed = a && b && c;`) that is
+            # assigned by plain moves — its value is then whatever the moved operand evaluates to under the assumptions, or unknown
+            if d and all(r["k"] in ("use", "call") for (_, _, r) in d if r.get("k") != "partial"):
                 auto.append(l)
         self.tracked = tuple(tracked) + tuple(auto)
         self.tries = tries
@@ -1070,6 +1107,7 @@ class Explore:
         self.edges = set()
         self.stop = set(stop)
         self.removed_edges = set(removed_edges)
+        self.assume_fn = assume_fn
         self.state_at = defaultdict(set)
         init_state = tuple((l, (init or {}).get(l)) for l in self.tracked)
         self._run(start, init_state)
@@ -1096,14 +1134,30 @@ class Explore:
             return self.assume[t]
         if depth > 6 or not t:
             return None
+        if self.assume_fn is not None:
+            v = self.assume_fn(t)
+            if v is not None:
+                return v
         if t[0] == "call" and t[1] in self._OPT_TESTS and len(t[2]) == 1:
             k = noref(t[2][0])
             v = self.assume.get(k)
             if v is None:
                 v = self.assume.get(noref(strip(k)))
+            if v is None and self.assume_fn is not None:
+                v = self.assume_fn(k)
+                if v is None:
+                    v = self.assume_fn(noref(strip(k)))
             if v is None:
                 return None
             return int(v == self._OPT_TESTS[t[1]])
+        if t[0] == "call" and t[1] in ("std::option::Option::<T>::is_some_and", "std::option::Option::<T>::is_none_or") and len(t[2]) == 2:
+            k = noref(t[2][0])
+            v = self.assume.get(k)
+            if v is None and self.assume_fn is not None:
+                v = self.assume_fn(k)
+            if v == 0:
+                return 0 if t[1].endswith("is_some_and") else 1
+            return None
         if t[0] == "un" and t[1] == "Not":
             v = self._eval_term(t[2], depth + 1)
             return None if v is None or v not in (0, 1) else 1 - v
@@ -1160,7 +1214,12 @@ class Explore:
             st[l] = v
         t = self.fn.blocks[bb]["term"]
         if t["k"] == "call" and not t["dest"]["proj"] and t["dest"]["l"] in st:
-            st[t["dest"]["l"]] = None
+            # the result of a call that the assumptions determine (x.is_none() of an assumed x, ...), else unknown
+            try:
+                ct = ("call", callee_str(t["f"]), tuple(self.terms.operand(a) for a in t["args"]), bb)
+                st[t["dest"]["l"]] = self._eval_term(ct)
+            except Exception:
+                st[t["dest"]["l"]] = None
         return tuple((l, st[l]) for l in self.tracked)
 
     def _decide(self, bb, state):
@@ -1185,6 +1244,11 @@ class Explore:
             sk = strip(key)
             if sk in self.assume:
                 return self.assume[sk]
+            if self.assume_fn is not None:
+                for k_ in (key, noref(key), sk, noref(sk)):
+                    v = self.assume_fn(k_)
+                    if v is not None:
+                        return v
             return None
         if r is not None and r["k"] == "use":
             return self._value_of(r["op"], state)
